@@ -43,7 +43,7 @@ def main() -> int:
     ran = []
     ok = False
     try:
-        demo = (src / "demo.py").read_text().replace(f"/tmp/seed5/{pid}", str(wt)).replace(f"/tmp/seed4/{pid}", str(wt)).replace(f"/tmp/seed3/{pid}", str(wt)).replace(f"/tmp/seed2/{pid}", str(wt)).replace(f"/tmp/seed/{pid}", str(wt))
+        demo = (src / "demo.py").read_text().replace(f"/tmp/seed6/{pid}", str(wt)).replace(f"/tmp/seed5/{pid}", str(wt)).replace(f"/tmp/seed4/{pid}", str(wt)).replace(f"/tmp/seed3/{pid}", str(wt)).replace(f"/tmp/seed2/{pid}", str(wt)).replace(f"/tmp/seed/{pid}", str(wt))
         (wt / "demo.py").write_text(demo)
         clean = sh([PY, "demo.py"], cwd=wt, env=env, timeout=600)
         ran.append(f"clean tree: demo exit {clean.returncode}")
